@@ -1,9 +1,1424 @@
+// World "conc": real client threads on one thread_safe::yes container, run one
+// at a time under the seeded scheduler (sched.cpp).  Oracles:
+//   * linearizability against the thread_safe::no instantiation of the same
+//     header code, replayed sequentially under the same clock and random seams (C06)
+//   * in the TSan build: happens-before race reports with a library frame (C07)
+//
+// In the TSan build this file is compiled WITHOUT instrumentation: it touches
+// data shared with parked clients (results, event log) while they are alive.
 #include "conc.hpp"
+
+#include "box.hpp"
+#include "sched.hpp"
+
+#include <algorithm>
+#include <cstring>
+#include <thread>
+
 namespace sim
 {
-js::Value   conc_genplan(const std::string&, const std::string&, uint64_t, uint64_t, bool) { return js::Value::object(); }
-uint64_t    conc_pairs_total() { return 0; }
-ConcOutcome conc_run_plan_json(const js::Value&, std::string*) { return {}; }
-size_t      conc_shrink_json(js::Value&, const std::function<bool(const js::Value&)>&, size_t) { return 0; }
-bool        conc_is_tsan_build() { return false; }
+// provided by tsan_hook.cpp in the TSan build
+struct RaceRec
+{
+    char a[200];
+    char b[200];
+    int  lib_a, lib_b;
+    long os_a, os_b;
+};
+#ifdef SIM_TSAN
+size_t         tsan_report_count();
+const RaceRec* tsan_reports();
+void           tsan_reports_clear();
+bool           conc_is_tsan_build() { return true; }
+#else
+static size_t         tsan_report_count() { return 0; }
+static const RaceRec* tsan_reports() { return nullptr; }
+static void           tsan_reports_clear() {}
+bool                  conc_is_tsan_build() { return false; }
+#endif
+
+namespace
+{
+constexpr int64_t MS = 1000000;
+
+struct Epoch
+{
+    int64_t                      adv_ns{0};
+    std::vector<std::vector<Op>> clients;
+};
+
+struct ConcPlan
+{
+    Config                cfg;
+    int64_t               clock_start{0};
+    std::vector<uint32_t> rd{1u};
+    int                   nclients{2};
+    std::vector<Op>       prefill;
+    std::vector<Epoch>    epochs;
+    int                   mode{0};
+    std::vector<int32_t>  list;
+    int                   stall_client{-1};
+    uint32_t              stall_from{0}, stall_len{0};
+    std::vector<int>      prio;
+    std::vector<uint32_t> change_points;
+    std::string           note; // e.g. the method pair of a matrix plan
+
+    js::Value to_json() const
+    {
+        auto v = js::Value::object();
+        v.set("world", "conc");
+        if (!note.empty())
+            v.set("note", note);
+        v.set("config", cfg.to_json());
+        v.set("clock_start", clock_start);
+        auto r = js::Value::array();
+        for (auto x : rd)
+            r.push(js::Value::integer((int64_t)x));
+        v.set("rd", std::move(r));
+        v.set("nclients", nclients);
+        auto pf = js::Value::array();
+        for (auto& o : prefill)
+            pf.push(o.to_json());
+        v.set("prefill", std::move(pf));
+        auto es = js::Value::array();
+        for (auto& e : epochs)
+        {
+            auto eo = js::Value::object();
+            eo.set("adv_ns", e.adv_ns);
+            auto cs = js::Value::array();
+            for (auto& c : e.clients)
+            {
+                auto co = js::Value::array();
+                for (auto& o : c)
+                    co.push(o.to_json());
+                cs.push(std::move(co));
+            }
+            eo.set("clients", std::move(cs));
+            es.push(std::move(eo));
+        }
+        v.set("epochs", std::move(es));
+        auto s = js::Value::object();
+        s.set("mode", mode);
+        auto l = js::Value::array();
+        for (auto x : list)
+            l.push(js::Value::integer(x));
+        s.set("list", std::move(l));
+        if (stall_client >= 0)
+        {
+            auto st = js::Value::array();
+            st.push(js::Value::integer(stall_client)).push(js::Value::integer(stall_from)).push(js::Value::integer(stall_len));
+            s.set("stall", std::move(st));
+        }
+        if (mode == 2)
+        {
+            auto p = js::Value::array();
+            for (auto x : prio)
+                p.push(js::Value::integer(x));
+            s.set("prio", std::move(p));
+            auto c = js::Value::array();
+            for (auto x : change_points)
+                c.push(js::Value::integer(x));
+            s.set("change_points", std::move(c));
+        }
+        v.set("sched", std::move(s));
+        return v;
+    }
+
+    bool from_json(const js::Value& v)
+    {
+        auto* c = v.get("config");
+        if (!c || !cfg.from_json(*c))
+            return false;
+        cfg.ts      = true;
+        note        = v.gets("note");
+        clock_start = std::max<int64_t>(0, v.geti("clock_start"));
+        rd.clear();
+        if (auto* r = v.get("rd"))
+            for (auto& x : r->a)
+                rd.push_back((uint32_t)x.i);
+        if (rd.empty())
+            rd.push_back(1);
+        nclients = (int)v.geti("nclients", 2);
+        prefill.clear();
+        if (auto* pf = v.get("prefill"))
+            for (auto& o : pf->a)
+            {
+                Op op;
+                if (op.from_json(o))
+                    prefill.push_back(op);
+            }
+        epochs.clear();
+        if (auto* es = v.get("epochs"))
+            for (auto& eo : es->a)
+            {
+                Epoch e;
+                e.adv_ns = std::max<int64_t>(0, eo.geti("adv_ns"));
+                if (auto* cs = eo.get("clients"))
+                    for (auto& co : cs->a)
+                    {
+                        std::vector<Op> ops;
+                        for (auto& o : co.a)
+                        {
+                            Op op;
+                            if (op.from_json(o))
+                                ops.push_back(op);
+                        }
+                        e.clients.push_back(std::move(ops));
+                    }
+                epochs.push_back(std::move(e));
+            }
+        list.clear();
+        prio.clear();
+        change_points.clear();
+        stall_client = -1;
+        if (auto* s = v.get("sched"))
+        {
+            mode = (int)s->geti("mode");
+            if (auto* l = s->get("list"))
+                for (auto& x : l->a)
+                    list.push_back((int32_t)x.i);
+            if (auto* st = s->get("stall"))
+                if (st->a.size() == 3)
+                {
+                    stall_client = (int)st->a[0].i;
+                    stall_from   = (uint32_t)st->a[1].i;
+                    stall_len    = (uint32_t)st->a[2].i;
+                }
+            if (auto* p = s->get("prio"))
+                for (auto& x : p->a)
+                    prio.push_back((int)x.i);
+            if (auto* cp = s->get("change_points"))
+                for (auto& x : cp->a)
+                    change_points.push_back((uint32_t)x.i);
+        }
+        normalize();
+        return true;
+    }
+
+    // Makes any plan executable (what the shrinker relies on).
+    void normalize()
+    {
+        Traits tr = traits_of(cfg.cont);
+        cfg.ts    = true;
+        if (!combo_supported(cfg.kt, cfg.vt))
+        {
+            cfg.kt = KeyT::i;
+            cfg.vt = ValT::i;
+        }
+        int maxc = 0;
+        for (auto& e : epochs)
+            maxc = std::max<int>(maxc, (int)e.clients.size());
+        nclients = std::max(1, std::min(sched::kMaxClients, std::max(nclients, maxc)));
+        for (auto& e : epochs)
+            e.clients.resize((size_t)nclients);
+        int  u   = (int)std::max<uint32_t>(1, cfg.universe);
+        auto fix = [&](std::vector<Op>& ops) {
+            std::vector<Op> out;
+            for (auto& o : ops)
+            {
+                bool ok = true;
+                switch (o.kind)
+                {
+                    case OpKind::find_uc:
+                        ok = tr.has_uc;
+                        break;
+                    case OpKind::age:
+                        ok = tr.has_age;
+                        break;
+                    case OpKind::clean:
+                        ok = tr.has_clean;
+                        break;
+                    case OpKind::clear:
+                        ok = tr.has_clear;
+                        break;
+                    case OpKind::update_ttl:
+                        ok = tr.has_update_ttl;
+                        break;
+                    case OpKind::capacity:
+                        ok = tr.has_capacity;
+                        break;
+                    default:
+                        break;
+                }
+                if (!ok)
+                    continue;
+                o.key = ((o.key % u) + u) % u;
+                if (o.val == 0)
+                    o.val = 1;
+                for (auto& it : o.items)
+                {
+                    it.key = ((it.key % u) + u) % u;
+                    if (it.val == 0)
+                        it.val = 1;
+                }
+                if (!tr.has_peek)
+                    o.peek = false;
+                if (!tr.iter_forms && o.form >= 3)
+                    o.form = 0;
+                if (cfg.cont == Cont::tlru && o.kind == OpKind::insert_range && o.form == 2)
+                    o.form = 0;
+                if (o.form < 0 || o.form > 4)
+                    o.form = 0;
+                if (o.kind == OpKind::find_range && o.form == 2)
+                    o.form = 0;
+                if ((o.kind == OpKind::find_fill || o.kind == OpKind::insert_range) && o.form == 4)
+                    o.form = 0;
+                if (o.kind == OpKind::find_fill && o.form == 1)
+                    o.form = 0;
+                if (o.kind == OpKind::erase_range && (o.form == 2 || o.form == 4))
+                    o.form = 0;
+                out.push_back(o);
+            }
+            ops = std::move(out);
+        };
+        fix(prefill);
+        for (auto& e : epochs)
+            for (auto& c : e.clients)
+                fix(c);
+        if (stall_client >= nclients)
+            stall_client = -1;
+        prio.resize((size_t)nclients, 0);
+    }
+};
+
+std::string method_name(Cont c, OpKind k)
+{
+    std::string cls = cont_name(c);
+    if (c != Cont::ut_map && c != Cont::ut_set)
+        cls += "_cache";
+    const char* m = op_name(k);
+    switch (k)
+    {
+        case OpKind::find_fill:
+            m = "find_range_fill";
+            break;
+        case OpKind::find_uc:
+            m = "find_with_use_count";
+            break;
+        case OpKind::age:
+            m = "dynamically_age";
+            break;
+        case OpKind::clean:
+            m = "clean_expired_values";
+            break;
+        default:
+            break;
+    }
+    return cls + "::" + m;
+}
+
+// ------------------------------------------------------------- execution ----
+struct HOp
+{
+    int      client; // -1 = prefill
+    int      epoch;
+    int      idx;
+    Op       op;
+    Result   res;
+    int64_t  time;
+    uint32_t inv{0}, ret{0}, lock{0};
+    bool     has_lock{false};
+    bool     completed{false};
+    uint64_t key() const { return has_lock ? lock : inv; }
+};
+
+struct ClientCtx
+{
+    int                               id;
+    Box*                              box;
+    const std::vector<Epoch>*         epochs;
+    std::vector<std::vector<Result>>  results;  // [epoch][idx]
+    std::vector<std::vector<uint8_t>> done;     // [epoch][idx]
+};
+
+void client_main(ClientCtx* c)
+{
+    if (!sched::client_begin(c->id))
+    {
+        sched::client_leave();
+        return;
+    }
+    for (;;)
+    {
+        int   e   = sched::current_epoch();
+        auto& ops = (*c->epochs)[(size_t)e].clients[(size_t)c->id];
+        for (size_t i = 0; i < ops.size(); ++i)
+        {
+            sched::point_invoke((int)i);
+            Result r                      = c->box->exec(ops[i]);
+            c->results[(size_t)e][i]      = std::move(r);
+            c->done[(size_t)e][i]         = 1;
+            sched::point_return((int)i);
+        }
+        if (!sched::client_epoch_done())
+            break;
+    }
+    sched::client_leave();
+}
+
+// Looks at every key of the universe and the observers without policy side effects.
+Result final_probe(Box& b, const Config& cfg, const Traits& tr)
+{
+    Result r;
+    for (int k = 0; k < (int)cfg.universe; ++k)
+    {
+        Found f = tr.has_uc ? b.find_uc(k, true) : b.find(k, tr.has_peek);
+        r.push_back(f.hit);
+        r.push_back(f.val);
+        r.push_back((int64_t)f.count);
+    }
+    r.push_back((int64_t)b.size());
+    r.push_back(b.empty());
+    return r;
+}
+
+struct LinCheck
+{
+    const ConcPlan&   plan;
+    std::vector<HOp>& h;
+    const Result&     final_conc;
+    Traits            tr;
+    uint64_t          nodes{0}, budget{300000};
+    bool              exhausted{false};
+    std::vector<int>  order; // accepted order
+    std::string       why;   // first mismatch of the witness order
+
+    LinCheck(const ConcPlan& p, std::vector<HOp>& hist, const Result& fc) : plan(p), h(hist), final_conc(fc), tr(traits_of(p.cfg.cont)) {}
+
+    std::unique_ptr<Box> twin()
+    {
+        Config c = plan.cfg;
+        c.ts     = false;
+        sched::rd_rewind();
+        return make_box(c);
+    }
+    Result apply(Box& b, const HOp& o)
+    {
+        sched::clock_set(o.time);
+        return b.exec(o.op);
+    }
+    std::unique_ptr<Box> replay(const std::vector<int>& prefix)
+    {
+        auto b = twin();
+        for (int i : prefix)
+            apply(*b, h[(size_t)i]);
+        return b;
+    }
+    bool final_ok(Box& b, int64_t tend)
+    {
+        sched::clock_set(tend);
+        return final_probe(b, plan.cfg, tr) == final_conc;
+    }
+
+    // witness order first
+    bool try_witness(int64_t tend)
+    {
+        std::vector<int> idx(h.size());
+        for (size_t i = 0; i < h.size(); ++i)
+            idx[i] = (int)i;
+        std::stable_sort(idx.begin(), idx.end(), [&](int a, int b) { return h[(size_t)a].key() < h[(size_t)b].key(); });
+        auto b = twin();
+        for (int i : idx)
+        {
+            Result r = apply(*b, h[(size_t)i]);
+            if (r != h[(size_t)i].res)
+            {
+                why = std::string(op_name(h[(size_t)i].op.kind)) + " by client " + std::to_string(h[(size_t)i].client) +
+                      " returned " + result_str(h[(size_t)i].res) + " but " + result_str(r) + " in lock order";
+                return false;
+            }
+        }
+        if (!final_ok(*b, tend))
+        {
+            why = "final state differs from the state reached in lock order";
+            return false;
+        }
+        order = idx;
+        return true;
+    }
+
+    bool dfs(std::vector<int>& prefix, std::vector<uint8_t>& done, std::unique_ptr<Box>& cur, int64_t tend)
+    {
+        if (prefix.size() == h.size())
+            return final_ok(*cur, tend);
+        // minimal candidates: not done, every real-time predecessor done
+        std::vector<int> cand;
+        for (size_t i = 0; i < h.size(); ++i)
+        {
+            if (done[i])
+                continue;
+            bool ok = true;
+            for (size_t j = 0; j < h.size() && ok; ++j)
+                if (!done[j] && j != i && h[j].ret < h[i].inv)
+                    ok = false;
+            if (ok)
+                cand.push_back((int)i);
+        }
+        std::stable_sort(cand.begin(), cand.end(), [&](int a, int b) { return h[(size_t)a].key() < h[(size_t)b].key(); });
+        bool first = true;
+        for (int c : cand)
+        {
+            if (++nodes > budget)
+            {
+                exhausted = true;
+                return false;
+            }
+            if (!first)
+                cur = replay(prefix);
+            first    = false;
+            Result r = apply(*cur, h[(size_t)c]);
+            if (r != h[(size_t)c].res)
+                continue;
+            prefix.push_back(c);
+            done[(size_t)c] = 1;
+            if (dfs(prefix, done, cur, tend))
+                return true;
+            if (exhausted)
+                return false;
+            prefix.pop_back();
+            done[(size_t)c] = 0;
+        }
+        return false;
+    }
+
+    bool search(int64_t tend)
+    {
+        std::vector<int>     prefix;
+        std::vector<uint8_t> done(h.size(), 0);
+        auto                 cur = twin();
+        bool                 ok  = dfs(prefix, done, cur, tend);
+        if (ok)
+            order = prefix;
+        return ok;
+    }
+};
+
+struct ConcRun
+{
+    ConcPlan     plan;
+    ConcOutcome  out;
+    std::string* trace;
+
+    void fail(std::initializer_list<const char*> props, const char* check, const std::string& detail)
+    {
+        if (out.v.any())
+            return;
+        for (auto p : props)
+            out.v.props.insert(p);
+        out.v.check  = check;
+        out.v.detail = detail;
+    }
+    void note(const Result& r)
+    {
+        out.st.log_hash = fnv1a(r.data(), r.size() * sizeof(int64_t), out.st.log_hash);
+        out.st.log_hash = fnv1a("|", 1, out.st.log_hash);
+    }
+
+    void run()
+    {
+        Traits tr     = traits_of(plan.cfg.cont);
+        out.plan_hash = fnv1a(plan.to_json().dump());
+        sched::sim_thread(true);
+        sched::rd_set(plan.rd.data(), plan.rd.size());
+        int64_t now = plan.clock_start;
+        sched::clock_set(now);
+        tracked_reset_errors();
+        const TrackedStats t0 = tracked_stats();
+        tsan_reports_clear();
+
+        std::unique_ptr<Box> box = make_box(plan.cfg);
+        if (!box)
+        {
+            fail({}, "harness.unsupported_config", "no instantiation");
+            sched::sim_thread(false);
+            return;
+        }
+        std::vector<HOp> hist;
+        uint32_t         pseudo = 0;
+        for (size_t i = 0; i < plan.prefill.size(); ++i)
+        {
+            HOp o;
+            o.client    = -1;
+            o.epoch     = -1;
+            o.idx       = (int)i;
+            o.op        = plan.prefill[i];
+            o.time      = now;
+            o.res       = box->exec(o.op);
+            o.inv       = pseudo++;
+            o.ret       = pseudo++;
+            o.completed = true;
+            note(o.res);
+            ++out.st.calls;
+            hist.push_back(std::move(o));
+        }
+        const uint32_t base = pseudo; // scheduler sequence numbers are offset by this
+
+        // ---- clients
+        const int              n = plan.nclients;
+        std::vector<ClientCtx> ctx((size_t)n);
+        for (int c = 0; c < n; ++c)
+        {
+            ctx[(size_t)c].id     = c;
+            ctx[(size_t)c].box    = box.get();
+            ctx[(size_t)c].epochs = &plan.epochs;
+            ctx[(size_t)c].results.resize(plan.epochs.size());
+            ctx[(size_t)c].done.resize(plan.epochs.size());
+            for (size_t e = 0; e < plan.epochs.size(); ++e)
+            {
+                ctx[(size_t)c].results[e].resize(plan.epochs[e].clients[(size_t)c].size());
+                ctx[(size_t)c].done[e].assign(plan.epochs[e].clients[(size_t)c].size(), 0);
+            }
+        }
+        sched::Spec spec;
+        spec.nclients     = n;
+        spec.mode         = plan.mode;
+        spec.list         = plan.list.data();
+        spec.nlist        = plan.list.size();
+        spec.stall_client = plan.stall_client;
+        spec.stall_from   = plan.stall_from;
+        spec.stall_len    = plan.stall_len;
+        for (int c = 0; c < n && c < sched::kMaxClients; ++c)
+            spec.prio[c] = plan.prio[(size_t)c];
+        spec.change_points = plan.change_points.data();
+        spec.nchange       = plan.change_points.size();
+        spec.obj_lo        = box->obj_addr();
+        spec.obj_hi        = (const char*)box->obj_addr() + box->obj_size();
+        sched::begin_run(spec);
+
+        std::vector<std::thread> threads;
+        for (int c = 0; c < n; ++c)
+            threads.emplace_back(client_main, &ctx[(size_t)c]);
+
+        std::vector<int64_t> etime(plan.epochs.size());
+        sched::Status        status = sched::ST_OK;
+        for (size_t e = 0; e < plan.epochs.size() && status == sched::ST_OK; ++e)
+        {
+            now += plan.epochs[e].adv_ns;
+            out.st.sim_ns += plan.epochs[e].adv_ns;
+            etime[e] = now;
+            sched::clock_set(now);
+            bool has_work[sched::kMaxClients] = {};
+            for (int c = 0; c < n; ++c)
+                has_work[c] = !plan.epochs[e].clients[(size_t)c].empty();
+            status = sched::run_epoch((uint16_t)e, has_work);
+        }
+        sched::end_run();
+        if (status == sched::ST_OK)
+        {
+            for (auto& t : threads)
+                t.join();
+        }
+        else
+        {
+            for (auto& t : threads)
+                t.detach();
+            out.must_exit = true;
+            (void)box.release(); // parked clients may sit inside the container: never destroy it
+        }
+
+        // ---- history from the event log
+        size_t               nev = 0;
+        const sched::Event*  ev  = sched::events(&nev);
+        out.trace_hash           = sched::trace_hash();
+        out.st.bump("sched.decisions", 0);
+        {
+            size_t nd = 0;
+            sched::chosen(&nd);
+            out.st.bump("sched.decisions", nd);
+        }
+        out.st.bump("fault.preemption", sched::preemptions());
+        out.st.bump("fault.stall_denied_baton", sched::stalls_fired());
+        out.st.bump("fault.lock_found_held", sched::blocked_fired());
+
+        std::map<std::tuple<int, int, int>, size_t> where; // (client, epoch, idx) -> hist index
+        for (size_t e = 0; e < plan.epochs.size(); ++e)
+            for (int c = 0; c < n; ++c)
+                for (size_t i = 0; i < plan.epochs[e].clients[(size_t)c].size(); ++i)
+                {
+                    HOp o;
+                    o.client    = c;
+                    o.epoch     = (int)e;
+                    o.idx       = (int)i;
+                    o.op        = plan.epochs[e].clients[(size_t)c][i];
+                    o.time      = etime[e];
+                    o.completed = ctx[(size_t)c].done[e][i] != 0;
+                    if (o.completed)
+                        o.res = ctx[(size_t)c].results[e][i];
+                    where[{c, (int)e, (int)i}] = hist.size();
+                    hist.push_back(std::move(o));
+                }
+        uint32_t in_flight_switches = 0;
+        {
+            int  open_ops = 0;
+            int  last_c   = -2;
+            for (size_t k = 0; k < nev; ++k)
+            {
+                const sched::Event& x = ev[k];
+                if (x.client >= 0 && x.op >= 0)
+                {
+                    auto it = where.find({x.client, x.epoch, x.op});
+                    if (it != where.end())
+                    {
+                        HOp& o = hist[it->second];
+                        if (x.kind == sched::EV_INVOKE)
+                            o.inv = base + x.seq;
+                        else if (x.kind == sched::EV_RETURN)
+                            o.ret = base + x.seq;
+                        else if (x.kind == sched::EV_LOCK_ACQ && !o.has_lock)
+                        {
+                            o.has_lock = true;
+                            o.lock     = base + x.seq;
+                        }
+                    }
+                }
+                if (x.kind == sched::EV_INVOKE)
+                    ++open_ops;
+                if (x.kind == sched::EV_RETURN)
+                    --open_ops;
+                if (x.client >= 0 && x.client != last_c && last_c >= 0 && open_ops > 1)
+                    ++in_flight_switches;
+                if (x.client >= 0)
+                    last_c = x.client;
+            }
+        }
+        for (auto& o : hist)
+            if (o.client >= 0)
+            {
+                note(o.res);
+                ++out.st.calls;
+                if (!o.completed)
+                    o.ret = UINT32_MAX;
+            }
+        out.st.log_hash = fnv1a(&out.trace_hash, sizeof out.trace_hash, out.st.log_hash);
+        out.st.bump("probe.switch_with_calls_in_flight", in_flight_switches);
+        if (in_flight_switches)
+            out.st.nontrivial.insert("C06");
+        {
+            // C07 is about pairs of calls from different threads on one container
+            std::set<int> active;
+            for (auto& o : hist)
+                if (o.client >= 0)
+                    active.insert(o.client);
+            if (active.size() >= 2)
+                out.st.nontrivial.insert("C07");
+        }
+        if (trace)
+        {
+            for (size_t k = 0; k < nev; ++k)
+            {
+                static const char* kn[] = {"?", "invoke", "return", "lock-request", "lock-acquired", "unlock", "now", "blocked", "epoch-done", "epoch-start"};
+                *trace += "  ev " + std::to_string(ev[k].seq) + " client " + std::to_string(ev[k].client) + " " + kn[ev[k].kind] +
+                          " op " + std::to_string(ev[k].op) + " epoch " + std::to_string(ev[k].epoch) + "\n";
+            }
+            for (auto& o : hist)
+                *trace += "  op client " + std::to_string(o.client) + " epoch " + std::to_string(o.epoch) + " #" + std::to_string(o.idx) + " " +
+                          o.op.to_json().dump() + " -> " + (o.completed ? result_str(o.res) : std::string("(never returned)")) + "\n";
+        }
+
+        out.st.counters["eval.C06"]++;
+        out.st.counters["eval.C07"]++;
+        out.st.counters["eval.C08"]++;
+
+        if (status == sched::ST_DEADLOCK)
+        {
+            fail({"C06"}, "conc.deadlock", "no client is runnable but not every client has finished (lock never released or lock order cycle)");
+            sched::sim_thread(false);
+            return;
+        }
+        if (status == sched::ST_STEP_BUDGET)
+        {
+            fail({"C06"}, "conc.step_budget", "the run did not finish within the step budget (livelock)");
+            sched::sim_thread(false);
+            return;
+        }
+
+        // ---- C07: race reports (TSan build only)
+        if (conc_is_tsan_build())
+        {
+            size_t         nr = tsan_report_count();
+            const RaceRec* rr = tsan_reports();
+            for (size_t i = 0; i < nr && !out.v.any(); ++i)
+            {
+                if (!rr[i].lib_a && !rr[i].lib_b)
+                {
+                    fail({}, "harness.race_without_library_frame", std::string("TSan report with no cappuccino frame: ") + rr[i].a + " | " + rr[i].b);
+                    break;
+                }
+                std::string a = rr[i].a, b = rr[i].b;
+                // a side whose stack TSan could not restore: fall back to "what did that client call"
+                auto fallback = [&](std::string& nm, int lib, long os) {
+                    if (lib)
+                        return;
+                    int c = sched::client_of_os_tid(os);
+                    if (c < 0)
+                        return;
+                    std::set<std::string> kinds;
+                    for (auto& o : hist)
+                        if (o.client == c)
+                            kinds.insert(method_name(plan.cfg.cont, o.op.kind));
+                    if (kinds.size() == 1)
+                        nm = *kinds.begin();
+                };
+                fallback(a, rr[i].lib_a, rr[i].os_a);
+                fallback(b, rr[i].lib_b, rr[i].os_b);
+                if (b < a)
+                    std::swap(a, b);
+                fail({"C07"}, "race", a + " | " + b);
+                // the identity of a race finding is the unordered pair of public methods
+                out.v.check = "race:" + a + "|" + b;
+            }
+            out.st.bump("tsan.reports", nr);
+        }
+
+        // ---- C06: linearizability against the sequential twin
+        const int64_t tend = now;
+        sched::clock_set(tend);
+        Result final_conc = final_probe(*box, plan.cfg, tr);
+        note(final_conc);
+        if (!out.v.any() && !conc_is_tsan_build())
+        {
+            LinCheck lc(plan, hist, final_conc);
+            if (lc.try_witness(tend))
+                out.st.bump("lin.witness_order_accepted");
+            else
+            {
+                out.st.bump("lin.full_search");
+                if (lc.search(tend))
+                    out.st.bump("lin.accepted_by_search");
+                else if (lc.exhausted)
+                    out.st.bump("lin.search_budget_exhausted");
+                else
+                    fail({"C06"}, "lin.no_sequential_order",
+                         "no sequential order consistent with real time reproduces the results (" + lc.why + ")");
+                out.st.bump("lin.search_nodes", lc.nodes);
+            }
+        }
+
+        // ---- teardown
+        box.reset();
+        if (plan.cfg.vt == ValT::t && !out.v.any())
+        {
+            const TrackedStats t1 = tracked_stats();
+            if (t1.bad_destroy || t1.bad_construct || t1.live != t0.live)
+                fail({"C08"}, "lifetime.conc", "value objects: " + std::to_string(t1.live - t0.live) + " leaked, " +
+                                                   std::to_string(t1.bad_destroy) + " double destroyed");
+        }
+        sched::sim_thread(false);
+    }
+};
+
+// -------------------------------------------------------------- generation ----
+struct CGen
+{
+    Rng      r;
+    ConcPlan p;
+    Traits   tr;
+    uint32_t next_val{1};
+    std::vector<int64_t> ttls;
+
+    explicit CGen(uint64_t seed) : r(seed) {}
+
+    int     key() { return (int)r.below(p.cfg.universe); }
+    int64_t ttl() { return r.pick(ttls); }
+    int     allow()
+    {
+        unsigned x = (unsigned)r.below(8);
+        return x < 4 ? ALLOW_BOTH : x < 6 ? ALLOW_INSERT : ALLOW_UPDATE;
+    }
+    std::vector<Item> items(bool vals, size_t minlen)
+    {
+        std::vector<Item> v;
+        size_t            n = (size_t)r.range((int64_t)minlen, (int64_t)std::max<size_t>(minlen, 4));
+        for (size_t i = 0; i < n; ++i)
+        {
+            Item it;
+            it.key = key();
+            if (vals)
+            {
+                it.val    = next_val++;
+                it.ttl_ms = ttl();
+            }
+            v.push_back(it);
+        }
+        return v;
+    }
+    int form(OpKind k)
+    {
+        std::vector<int> f = {0};
+        if (k == OpKind::insert_range)
+        {
+            f.push_back(1);
+            if (p.cfg.cont != Cont::tlru)
+                f.push_back(2);
+        }
+        else if (k == OpKind::find_fill)
+            f.push_back(2);
+        else
+            f.push_back(1);
+        if (tr.iter_forms)
+            f.push_back(3);
+        return r.pick(f);
+    }
+    Op op(OpKind k)
+    {
+        Op o;
+        o.kind = k;
+        switch (k)
+        {
+            case OpKind::insert:
+                o.key    = key();
+                o.val    = next_val++;
+                o.allow  = allow();
+                o.ttl_ms = ttl();
+                break;
+            case OpKind::insert_range:
+                o.allow = allow();
+                o.items = items(true, 2);
+                o.form  = form(k);
+                break;
+            case OpKind::erase:
+                o.key = key();
+                break;
+            case OpKind::erase_range:
+                o.items = items(false, 2);
+                o.form  = form(k);
+                break;
+            case OpKind::find:
+            case OpKind::find_uc:
+                o.key  = key();
+                o.peek = tr.has_peek && r.chance(1, 3);
+                break;
+            case OpKind::find_range:
+            case OpKind::find_fill:
+                o.items = items(false, 2);
+                o.peek  = tr.has_peek && r.chance(1, 3);
+                o.form  = form(k);
+                break;
+            case OpKind::update_ttl:
+                o.ttl_ms = ttl();
+                break;
+            default:
+                break;
+        }
+        return o;
+    }
+    std::vector<OpKind> kinds()
+    {
+        std::vector<OpKind> k = {OpKind::insert, OpKind::insert, OpKind::insert, OpKind::insert_range, OpKind::insert_range,
+                                 OpKind::erase,  OpKind::erase_range, OpKind::find, OpKind::find, OpKind::find_range,
+                                 OpKind::find_fill, OpKind::size, OpKind::empty};
+        if (tr.has_capacity)
+            k.push_back(OpKind::capacity);
+        if (tr.has_uc)
+            k.push_back(OpKind::find_uc);
+        if (tr.has_age)
+        {
+            k.push_back(OpKind::age);
+            k.push_back(OpKind::age);
+        }
+        if (tr.has_clean)
+        {
+            k.push_back(OpKind::clean);
+            k.push_back(OpKind::clean);
+        }
+        if (tr.has_clear)
+            k.push_back(OpKind::clear);
+        if (tr.has_update_ttl)
+            k.push_back(OpKind::update_ttl);
+        return k;
+    }
+
+    void config(bool tsan, bool thorough)
+    {
+        Config& c = p.cfg;
+        c.ts      = true;
+        unsigned x = (unsigned)r.below(5);
+        if (x < 2 || (tsan && x >= 3))
+        {
+            c.kt = KeyT::i;
+            c.vt = ValT::i;
+        }
+        else if (x < 3)
+        {
+            c.kt = KeyT::s;
+            c.vt = ValT::s;
+        }
+        else
+        {
+            c.kt = KeyT::c;
+            c.vt = ValT::t;
+        }
+        if (!combo_supported(c.kt, c.vt))
+        {
+            c.kt = KeyT::i;
+            c.vt = ValT::i;
+        }
+        static const unsigned caps[] = {1, 2, 2, 3, 3, 4, 5};
+        c.capacity                   = caps[r.below(7)];
+        c.universe                   = tr.has_capacity ? c.capacity + (uint32_t)r.range(1, 3) : (uint32_t)r.range(2, 6);
+        static const double mlfs[]   = {0.25, 1.0, 1.0, 8.0};
+        c.mlf                        = mlfs[r.below(4)];
+        static const int64_t tt[]    = {0, 1, 5, 50, 1000, 3600000};
+        size_t               np      = (size_t)r.range(1, 3);
+        for (size_t i = 0; i < np; ++i)
+            ttls.push_back(tt[r.below(6)]);
+        c.ttl_ms = ttl();
+        if (c.ttl_ms == 0 && r.chance(3, 4))
+            c.ttl_ms = 50;
+        static const int64_t ticks[] = {1, 5, 1000};
+        c.tick_ms                    = ticks[r.below(3)];
+        static const double ratios[] = {0.0, 0.5, 0.5, 1.0};
+        c.ratio                      = ratios[r.below(4)];
+        p.clock_start                = r.chance(1, 2) ? 0 : (int64_t)r.below(1000000000000ULL);
+        p.rd.clear();
+        for (int i = 0; i < 4; ++i)
+            p.rd.push_back((uint32_t)r.next());
+        (void)thorough;
+    }
+
+    int64_t adv()
+    {
+        bool timed = tr.ttl != TtlMode::none || tr.policy == Policy::lfuda;
+        if (!timed)
+            return 0;
+        int64_t unit = (tr.policy == Policy::lfuda ? p.cfg.tick_ms : std::max<int64_t>(1, p.cfg.ttl_ms)) * MS;
+        switch (r.below(5))
+        {
+            case 0:
+                return 0;
+            case 1:
+                return unit;
+            case 2:
+                return unit + 1;
+            case 3:
+                return r.range(1, 2 * unit);
+            default:
+                return unit - 1 > 0 ? unit - 1 : 0;
+        }
+    }
+
+    ConcPlan random_plan(Cont cont, bool tsan, bool thorough)
+    {
+        p.cfg.cont = cont;
+        tr         = traits_of(cont);
+        config(tsan, thorough);
+        auto ks    = kinds();
+        p.nclients = (int)r.range(2, thorough ? 4 : 3);
+        size_t npf = (size_t)r.range(0, (int64_t)p.cfg.capacity + 1);
+        for (size_t i = 0; i < npf; ++i)
+            p.prefill.push_back(op(r.chance(3, 4) ? OpKind::insert : r.pick(ks)));
+        size_t ne = (size_t)r.range(1, thorough ? 3 : 2);
+        for (size_t e = 0; e < ne; ++e)
+        {
+            Epoch ep;
+            ep.adv_ns = adv();
+            for (int c = 0; c < p.nclients; ++c)
+            {
+                std::vector<Op> ops;
+                size_t          no = (size_t)r.range(1, thorough ? 5 : 3);
+                for (size_t i = 0; i < no; ++i)
+                    ops.push_back(op(r.pick(ks)));
+                ep.clients.push_back(std::move(ops));
+            }
+            p.epochs.push_back(std::move(ep));
+        }
+        // ---- schedule policy
+        unsigned pol = (unsigned)r.below(4);
+        if (pol == 0)
+        {
+            // uniform random choice at every point
+            p.mode = 0;
+            for (int i = 0; i < 160; ++i)
+                p.list.push_back((int32_t)r.range(0, p.nclients));
+        }
+        else if (pol == 1)
+        {
+            // run to completion unless preempted with probability 1/q
+            p.mode     = 0;
+            unsigned q = (unsigned)r.range(3, 12);
+            for (int i = 0; i < 160; ++i)
+                p.list.push_back(r.chance(1, q) ? (int32_t)r.range(1, p.nclients) : 0);
+        }
+        else if (pol == 2)
+        {
+            // PCT: random priorities, d change points
+            p.mode = 2;
+            std::vector<int> pr;
+            for (int c = 0; c < p.nclients; ++c)
+                pr.push_back(c + 1);
+            for (size_t i = pr.size(); i > 1; --i)
+                std::swap(pr[i - 1], pr[r.below(i)]);
+            p.prio = pr;
+            size_t d = (size_t)r.range(0, 3);
+            for (size_t i = 0; i < d; ++i)
+                p.change_points.push_back((uint32_t)r.below(60));
+        }
+        else
+        {
+            // stall fault on top of a mostly-sequential schedule
+            p.mode = 0;
+            for (int i = 0; i < 160; ++i)
+                p.list.push_back(r.chance(1, 8) ? (int32_t)r.range(1, p.nclients) : 0);
+            p.stall_client = (int)r.below((uint64_t)p.nclients);
+            p.stall_from   = (uint32_t)r.below(12);
+            p.stall_len    = (uint32_t)r.range(3, 40);
+        }
+        p.normalize();
+        return p;
+    }
+};
+
+// ---- the complete method-pair matrix (C07 quick tier) -----------------------
+struct PairSpace
+{
+    struct Entry
+    {
+        Cont   cont;
+        OpKind a, b;
+        int    variant; // 0: a then b, 1: b then a, 2: a stalled at its first schedule point inside the call
+        int    args;    // 0: same / present keys, 1: different / absent keys
+    };
+    std::vector<Entry> all;
+    PairSpace()
+    {
+        for (int ci = 0; ci < (int)Cont::COUNT; ++ci)
+        {
+            Cont                cont = (Cont)ci;
+            Traits              tr   = traits_of(cont);
+            std::vector<OpKind> ks   = {OpKind::insert, OpKind::insert_range, OpKind::erase, OpKind::erase_range, OpKind::find,
+                                        OpKind::find_range, OpKind::find_fill, OpKind::size, OpKind::empty};
+            if (tr.has_capacity)
+                ks.push_back(OpKind::capacity);
+            if (tr.has_uc)
+                ks.push_back(OpKind::find_uc);
+            if (tr.has_age)
+                ks.push_back(OpKind::age);
+            if (tr.has_clean)
+                ks.push_back(OpKind::clean);
+            if (tr.has_clear)
+                ks.push_back(OpKind::clear);
+            if (tr.has_update_ttl)
+                ks.push_back(OpKind::update_ttl);
+            for (auto a : ks)
+                for (auto b : ks)
+                    for (int v = 0; v < 4; ++v)
+                        for (int g = 0; g < 2; ++g)
+                            all.push_back({cont, a, b, v, g});
+        }
+    }
+};
+const PairSpace& pair_space()
+{
+    static PairSpace ps;
+    return ps;
+}
+
+ConcPlan pair_plan(uint64_t idx, uint64_t seed)
+{
+    const auto& e = pair_space().all[idx % pair_space().all.size()];
+    ConcPlan    p;
+    Traits      tr = traits_of(e.cont);
+    Rng         r(mix3(seed, 0x7a17, idx));
+    p.cfg.cont     = e.cont;
+    p.cfg.ts       = true;
+    p.cfg.kt       = r.chance(1, 2) ? KeyT::i : KeyT::s;
+    p.cfg.vt       = p.cfg.kt == KeyT::i ? ValT::i : ValT::s;
+    p.cfg.capacity = 3;
+    p.cfg.universe = 6;
+    p.cfg.ttl_ms   = 10;
+    p.cfg.tick_ms  = 5;
+    p.cfg.ratio    = 0.5;
+    p.clock_start  = 1000;
+    p.rd           = {(uint32_t)r.next()};
+    p.nclients     = 2;
+    p.note         = std::string(cont_name(e.cont)) + ":" + op_name(e.a) + "|" + op_name(e.b) + " v" + std::to_string(e.variant) + " a" + std::to_string(e.args);
+    uint32_t val   = 1;
+    // pre-populate: keys 0,1 long-lived, key 2 short-lived (expired by the time the clients run); the cache is full
+    auto ins = [&](int k, int64_t ttl) {
+        Op o;
+        o.kind   = OpKind::insert;
+        o.key    = k;
+        o.val    = val++;
+        o.ttl_ms = ttl;
+        return o;
+    };
+    if (tr.has_update_ttl)
+    {
+        // uniform TTL: write the short-lived entry first with a short TTL, then lengthen
+        Op u;
+        u.kind   = OpKind::update_ttl;
+        u.ttl_ms = 1;
+        p.prefill.push_back(u);
+        p.prefill.push_back(ins(2, 1));
+        u.ttl_ms = 1000;
+        p.prefill.push_back(u);
+        p.prefill.push_back(ins(0, 1000));
+        p.prefill.push_back(ins(1, 1000));
+    }
+    else
+    {
+        p.prefill.push_back(ins(2, 1));
+        p.prefill.push_back(ins(0, 1000));
+        p.prefill.push_back(ins(1, 1000));
+    }
+    auto mk = [&](OpKind k, int who) {
+        Op o;
+        o.kind  = k;
+        int kp  = e.args == 0 ? 0 : (who == 0 ? 1 : 4); // present key 0 for both, or 1 (present) / 4 (absent)
+        int kn  = e.args == 0 ? 3 : (who == 0 ? 3 : 5); // new keys
+        switch (k)
+        {
+            case OpKind::insert:
+                o.key    = e.args == 0 ? kp : kn;
+                o.val    = val++;
+                o.ttl_ms = 1000;
+                break;
+            case OpKind::insert_range:
+                o.items = {Item{kp, val++, 1000}, Item{kn, val++, 1000}};
+                o.form  = tr.iter_forms ? 3 : 0;
+                break;
+            case OpKind::erase:
+                o.key = kp;
+                break;
+            case OpKind::erase_range:
+                o.items = {Item{kp, 0, 0}, Item{2, 0, 0}};
+                o.form  = tr.iter_forms ? 3 : 0;
+                break;
+            case OpKind::find:
+            case OpKind::find_uc:
+                o.key  = e.args == 0 ? kp : 2;
+                o.peek = false;
+                break;
+            case OpKind::find_range:
+            case OpKind::find_fill:
+                o.items = {Item{kp, 0, 0}, Item{2, 0, 0}, Item{1, 0, 0}};
+                o.form  = tr.iter_forms ? 3 : 0;
+                break;
+            case OpKind::update_ttl:
+                o.ttl_ms = who == 0 ? 20 : 30;
+                break;
+            default:
+                break;
+        }
+        return o;
+    };
+    Epoch ep;
+    ep.adv_ns = 5 * MS; // key 2 has expired, keys 0/1 are live; lfuda: idle longer than... (tick 5ms: not yet, strict)
+    if (tr.policy == Policy::lfuda)
+        ep.adv_ns = 6 * MS;
+    ep.clients.push_back({mk(e.a, 0)});
+    ep.clients.push_back({mk(e.b, 1)});
+    p.epochs.push_back(std::move(ep));
+    p.mode = 1; // explicit choices
+    if (e.variant == 0)
+        p.list = {0, 0, 0, 0, 0, 0, 0, 0, 0, 0, 0, 0, 1, 1, 1, 1, 1, 1, 1, 1, 1, 1, 1, 1};
+    else if (e.variant == 1)
+        p.list = {1, 1, 1, 1, 1, 1, 1, 1, 1, 1, 1, 1, 0, 0, 0, 0, 0, 0, 0, 0, 0, 0, 0, 0};
+    else if (e.variant == 2)
+        p.list = {0, 0, 1, 1, 1, 1, 1, 1, 1, 1, 1, 1, 1, 1, 0, 0, 0, 0, 0, 0, 0, 0, 0, 0}; // c0 parked at its 2nd schedule point
+    else
+        p.list = {0, 0, 0, 1, 1, 1, 1, 1, 1, 1, 1, 1, 1, 1, 1, 0, 0, 0, 0, 0, 0, 0, 0, 0}; // c0 parked at its 3rd schedule point
+    p.normalize();
+    return p;
+}
+
+} // namespace
+
+uint64_t conc_pairs_total() { return pair_space().all.size(); }
+
+js::Value conc_genplan(const std::string& world, const std::string& prop, uint64_t seed, uint64_t idx, bool thorough)
+{
+    if (world == "pairs")
+        return pair_plan(idx, seed).to_json();
+    uint64_t rs = mix3(seed, fnv1a(world + "/" + prop), idx);
+    CGen     g(rs);
+    Cont     cont = (Cont)(g.r.below((uint64_t)Cont::COUNT));
+    return g.random_plan(cont, conc_is_tsan_build(), thorough).to_json();
+}
+
+ConcOutcome conc_run_plan_json(const js::Value& pj, std::string* trace)
+{
+    ConcRun run;
+    run.trace = trace;
+    if (!run.plan.from_json(pj))
+    {
+        run.out.v.check = "harness.bad_plan";
+        return run.out;
+    }
+    run.run();
+    return run.out;
+}
+
+// ---------------------------------------------------------------- shrinking ----
+size_t conc_shrink_json(js::Value& pj, const std::function<bool(const js::Value&)>& pred, size_t budget)
+{
+    ConcPlan plan;
+    if (!plan.from_json(pj))
+        return 0;
+    size_t used = 0;
+    auto   test = [&](const ConcPlan& c) {
+        if (used >= budget)
+            return false;
+        ++used;
+        return pred(c.to_json());
+    };
+    auto try_plan = [&](ConcPlan c) {
+        c.normalize();
+        if (c.to_json().dump() == plan.to_json().dump())
+            return false;
+        if (test(c))
+        {
+            plan = c;
+            return true;
+        }
+        return false;
+    };
+    bool progress = true;
+    while (progress && used < budget)
+    {
+        progress = false;
+        // whole epochs
+        for (size_t e = 0; e < plan.epochs.size() && plan.epochs.size() > 1;)
+        {
+            ConcPlan c = plan;
+            c.epochs.erase(c.epochs.begin() + (long)e);
+            if (try_plan(c))
+                progress = true;
+            else
+                ++e;
+        }
+        // whole clients (keep at least one)
+        for (int cl = plan.nclients - 1; cl >= 0 && plan.nclients > 1; --cl)
+        {
+            ConcPlan c = plan;
+            for (auto& e : c.epochs)
+                if ((size_t)cl < e.clients.size())
+                    e.clients.erase(e.clients.begin() + cl);
+            c.nclients = plan.nclients - 1;
+            if (c.stall_client == cl)
+                c.stall_client = -1;
+            if (try_plan(c))
+                progress = true;
+        }
+        // single ops
+        for (size_t e = 0; e < plan.epochs.size(); ++e)
+            for (size_t cl = 0; cl < plan.epochs[e].clients.size(); ++cl)
+                for (size_t i = 0; i < plan.epochs[e].clients[cl].size();)
+                {
+                    ConcPlan c = plan;
+                    c.epochs[e].clients[cl].erase(c.epochs[e].clients[cl].begin() + (long)i);
+                    if (try_plan(c))
+                        progress = true;
+                    else
+                        ++i;
+                }
+        for (size_t i = 0; i < plan.prefill.size();)
+        {
+            ConcPlan c = plan;
+            c.prefill.erase(c.prefill.begin() + (long)i);
+            if (try_plan(c))
+                progress = true;
+            else
+                ++i;
+        }
+        // shorten ranges
+        auto shorten = [&](std::function<Op&(ConcPlan&)> sel) {
+            for (;;)
+            {
+                Op& cur = sel(plan);
+                if (!cur.is_range() || cur.items.size() <= 1)
+                    break;
+                bool any = false;
+                for (size_t j = 0; j < cur.items.size(); ++j)
+                {
+                    ConcPlan c = plan;
+                    Op&      o = sel(c);
+                    o.items.erase(o.items.begin() + (long)j);
+                    if (try_plan(c))
+                    {
+                        any = progress = true;
+                        break;
+                    }
+                }
+                if (!any)
+                    break;
+            }
+        };
+        for (size_t e = 0; e < plan.epochs.size(); ++e)
+            for (size_t cl = 0; cl < plan.epochs[e].clients.size(); ++cl)
+                for (size_t i = 0; i < plan.epochs[e].clients[cl].size(); ++i)
+                    shorten([=](ConcPlan& q) -> Op& { return q.epochs[e].clients[cl][i]; });
+        // schedule: drop the stall, zero decisions from the tail, simplify the mode
+        {
+            ConcPlan c     = plan;
+            c.stall_client = -1;
+            if (try_plan(c))
+                progress = true;
+        }
+        if (plan.mode == 2)
+        {
+            ConcPlan c = plan;
+            c.change_points.clear();
+            if (try_plan(c))
+                progress = true;
+        }
+        {
+            ConcPlan c = plan;
+            c.list.clear();
+            if (c.mode != 2 && try_plan(c))
+                progress = true;
+        }
+        for (size_t cut = plan.list.size(); cut > 0 && used < budget; cut /= 2)
+        {
+            ConcPlan c = plan;
+            c.list.resize(cut / 2);
+            if (try_plan(c))
+                progress = true;
+            else
+                break;
+        }
+        for (size_t i = plan.list.size(); i-- > 0 && used < budget;)
+        {
+            int32_t stay = plan.mode == 1 ? -1 : 0;
+            if (plan.list[i] == stay)
+                continue;
+            ConcPlan c = plan;
+            c.list[i]  = stay;
+            if (try_plan(c))
+                progress = true;
+        }
+        // times and configuration
+        for (size_t e = 0; e < plan.epochs.size(); ++e)
+        {
+            ConcPlan c         = plan;
+            c.epochs[e].adv_ns = 0;
+            if (try_plan(c))
+                progress = true;
+        }
+        auto cfgm = [&](std::function<void(ConcPlan&)> f) {
+            ConcPlan c = plan;
+            f(c);
+            if (try_plan(c))
+                progress = true;
+        };
+        cfgm([](ConcPlan& c) { c.clock_start = 0; });
+        cfgm([](ConcPlan& c) { c.cfg.mlf = 1.0; });
+        cfgm([](ConcPlan& c) {
+            c.cfg.kt = KeyT::i;
+            c.cfg.vt = ValT::i;
+        });
+        cfgm([](ConcPlan& c) {
+            if (c.cfg.capacity > 1)
+                --c.cfg.capacity;
+        });
+        cfgm([](ConcPlan& c) {
+            if (c.cfg.universe > 1)
+                --c.cfg.universe;
+        });
+        cfgm([](ConcPlan& c) { c.rd = {1u}; });
+    }
+    pj = plan.to_json();
+    return used;
+}
+
 } // namespace sim
